@@ -1,7 +1,50 @@
 import Gnet.Driver.Util
 import Gnet.Model.Engine
+import Gnet.Model.Handover
 namespace Gnet.Driver.EngineD
 open Gnet Gnet.Engine
+
+/-- replays the hand-over events of a real engine life on the hand-over model: the acceptor's hand-overs
+(A:loop:seq), registrations on the loops (E:loop:seq, which must follow the FIFO order of the hand-overs),
+closes (C:loop:seq) and loops leaving Polling (X:loop); returns the number of descriptors the model leaves
+unclosed once everything has stopped -/
+def hoReplay (nloops : Nat) (evs : List String) : Except String Nat := do
+  let s ← evs.foldlM (init := Handover.init nloops) fun s e =>
+    match e.splitOn ":" with
+    | ["A", l, k] =>
+      match l.toNat?, k.toNat? with
+      | some l, some k =>
+        if k ≠ s.nextFd then .error s!"hand-over {e}: connections are numbered in hand-over order, expected {s.nextFd}"
+        else if l ≥ s.loops.length then .error s!"hand-over {e}: no such loop"
+        else .ok (Handover.step s (.accept l))
+      | _, _ => .error s!"unparsable hand-over event {e}"
+    | ["E", l, k] =>
+      match l.toNat?, k.toNat? with
+      | some l, some k =>
+        match s.loops[l]? with
+        | some x =>
+          if !x.running then .error s!"{e}: loop {l} registers a connection after it left Polling"
+          else match x.queue with
+            | .register k' :: _ => if k' = k then .ok (Handover.step s (.exec l))
+                else .error s!"{e}: loop {l} registers {k} while {k'} was handed to it first"
+            | _ => .error s!"{e}: loop {l} registers {k}, which was not handed to it"
+        | none => .error s!"{e}: no such loop"
+      | _, _ => .error s!"unparsable hand-over event {e}"
+    | ["C", l, k] =>
+      match l.toNat?, k.toNat? with
+      | some l, some k => .ok (Handover.step s (.peerClose l k))
+      | _, _ => .error s!"unparsable hand-over event {e}"
+    | ["X", l] =>
+      match l.toNat? with
+      | some l =>
+        match s.loops[l]? with
+        | some x => if x.running then .ok (Handover.step s (.action l)) else .error s!"{e}: loop {l} leaves Polling twice"
+        | none => .error s!"{e}: no such loop"
+      | none => .error s!"unparsable hand-over event {e}"
+    | _ => .error s!"unparsable hand-over event {e}"
+  let s := Handover.run s [.requestStop, .postSentinels, .acceptorExit]
+  if !Handover.Final s then .error "Run returned although a loop never left Polling (no closeConns seen for it)"
+  else .ok (Handover.unclosed s).length
 
 def parseTok (t : String) : Option Tok :=
   match t.splitOn ":" with
@@ -23,10 +66,13 @@ def stopOk (source stop : String) : Bool :=
   | "twice" => stop == "nil,inshutdown"
   | _ => stop == "-"
 
-def judge (source : String) (rest : List String) : Option (Unit × String) :=
+def judge (source : String) (nloops : Nat) (rest : List String) : Option (Unit × String) :=
     let line := " ".intercalate rest
-    match line.splitOn " | " with
-    | [head, body] =>
+    match (match line.splitOn " | " with
+           | [head, body, ho] => some (head, body, some ho)
+           | [head, body] => some (head, body, none)
+           | _ => none) with
+    | some (head, body, ho) =>
       let hw := (head.splitOn " ").filter (· ≠ "")
       let stop := ((hw.find? (·.startsWith "stop=")).map (·.drop 5 |>.toString)).getD "?"
       if !(hw.contains "result=ok") then some ((), "MISMATCH: " ++ head)
@@ -35,14 +81,27 @@ def judge (source : String) (rest : List String) : Option (Unit × String) :=
         let toks := ((body.splitOn " ").filter (· ≠ "")).map parseTok
         if toks.any (·.isNone) then some ((), "MISMATCH: unparsable token")
         else match acceptTrace (source == "boot") (toks.filterMap id) with
-          | .ok a => if a.returned then some ((), line) else some ((), "MISMATCH: Run never returned")
+          | .ok a =>
+            if !a.returned then some ((), "MISMATCH: Run never returned")
+            else match ho with
+              | none => some ((), line)
+              | some h =>
+                -- " ho leaked=N ev ev ..": the model recomputes N from the events
+                match (h.splitOn " ").filter (· ≠ "") with
+                | "ho" :: _leaked :: evs =>
+                  match hoReplay nloops evs with
+                  | .ok n => some ((), s!"{head} | {body} | ho leaked={n}" ++ (if evs.isEmpty then "" else " " ++ " ".intercalate evs))
+                  | .error e => some ((), "MISMATCH: hand-over: " ++ e)
+                | _ => some ((), "MISMATCH: malformed hand-over record")
           | .error e => some ((), "MISMATCH: " ++ e)
-    | _ => some ((), "MISMATCH: malformed life record: " ++ line)
+    | none => some ((), "MISMATCH: malformed life record: " ++ line)
 
 def step (_ : Unit) (ws : List String) : Option (Unit × String) :=
   match ws with
-  | "life" :: _proto :: _loops :: _rp :: _tk :: _n :: source :: _et :: _lb :: rest => judge source rest
-  | "clife" :: _proto :: _loops :: _tk :: _n :: _mode :: _et :: rest => judge "client" rest
+  | "life" :: _proto :: loops :: _rp :: _tk :: _n :: source :: _et :: _lb :: rest =>
+    -- a Shutdown action returned from OnBoot: Run returns without creating any loop
+    judge source (if source == "boot" then 0 else loops.toNat?.getD 0) rest
+  | "clife" :: _proto :: loops :: _tk :: _n :: _mode :: _et :: rest => judge "client" (loops.toNat?.getD 0) rest
   | _ => some ((), "bad-op")
 
 def main : IO Unit := loop (fun _ => ()) step
